@@ -312,6 +312,7 @@ func PanicKind(msg string) string {
 	case strings.Contains(msg, "nil map"):
 		return "nil-map"
 	}
+	msg = quotedRe.ReplaceAllString(msg, "")
 	var b strings.Builder
 	for _, r := range msg {
 		switch {
@@ -345,6 +346,8 @@ func shortFunc(f string) string {
 	f = strings.TrimPrefix(f, "goa.design/goa/v3/")
 	return f
 }
+
+var quotedRe = regexp.MustCompile(`"[^"]*"|'[^']*'`)
 
 var closureRe = regexp.MustCompile(`(\.func\d+)+(\.\d+)*$`)
 
